@@ -410,7 +410,17 @@ class Project:
         os.replace(tmp, self.path(n))
 
     def write_user(self, n, v):
-        self._write(n, render({'n': n, 'k': 'user', 'v': v, 'd': []}))
+        txt = render({'n': n, 'k': 'user', 'v': v, 'd': []})
+        # a hand edit that keeps the size of the file it replaces (padding is stripped again by snapshot()): only the time
+        # stamp tells it from what was there - within the same second as the build, as a rule
+        try:
+            if os.path.isfile(self.path(n)) and not os.path.islink(self.path(n)):
+                old = os.path.getsize(self.path(n))
+                if old > len(txt.encode()):
+                    txt += '~' * (old - len(txt.encode()))
+        except OSError:
+            pass
+        self._write(n, txt)
 
     def write_do(self, df, ver):
         self._write(df, script_text(df, ver, self.prog['rules'][df][ver - 1], alias=self.prog.get('alias')))
